@@ -618,10 +618,23 @@ class Exec(object):
                 self.s.captured = []
                 self.touched_cash = set()
                 self.filled_assets = set()
-                refused = self.do(op)
-                self._sig(op["k"] + (":" + op.get("api", "") if op["k"] in ("getter", "pfdirect", "ctor") else ""),
-                          refused)
-                self.after_op(op)
+                try:
+                    refused = self.do(op)
+                    self._sig(op["k"] + (":" + op.get("api", "") if op["k"] in ("getter", "pfdirect", "ctor") else ""),
+                              refused)
+                    self.after_op(op)
+                except StopRun:
+                    raise
+                except Exception as e:
+                    from ..core import raised_in_repo
+                    if not raised_in_repo(e):
+                        raise          # a bug of the harness: exit 2, never a verdict
+                    # a public getter / valid request of the code under test raised unexpectedly
+                    for pr in sorted(ctx.focus):
+                        ctx.violate(pr, "public_api_raised_unexpectedly",
+                                    {"op": op, "exc": repr(e)[:300]},
+                                    sig="public_api_raised_unexpectedly:" + type(e).__name__)
+                    raise StopRun()
             self.final()
         except StopRun:
             pass
